@@ -1,26 +1,33 @@
 # C19 — transform objects are reusable: results depend only on the call's arguments.
-# Inductive argument: the only fields any method writes are r / r_ (frame assertion after every call); reachable object states are therefore
-# {r = r_ = NULL} ∪ {tables of computeR(N') : N' a size some earlier extendPol used}.  Every method is started from every such state with symbolic
-# data and symbolic nphase/nblock, must leave a state of the same family, and must return what a fresh object returns (the oracles of C03-C05).
+# The set of reachable object states is computed as a closure: starting from a fresh object, every call (NTT, INTT, extendPol of every size) is
+# applied to every state found so far until no new state signature (all scalar fields + contents of every table the object points to) appears
+# (breadth first, depth <= 3).  From every state so found, every method with symbolic data and symbolic nphase/nblock must return what a fresh
+# object returns (the oracles of C03-C05).  On the shipped code the closure is {fresh} ∪ {tables for N' : N' <= 2^s} and closes at depth 2, which
+# is the inductive argument for histories of any length; a change that introduces further states (a stale size field, a counter) makes the closure
+# larger and the additional states are checked like any other.
 from . import ntt, C03
 from ..runner import Ob
 META = dict(C03.META)
 META['functions'] = ['NTT_Goldilocks::NTT', 'NTT_Goldilocks::INTT', 'NTT_Goldilocks::extendPol', 'NTT_Goldilocks::computeR (cached tables r, r_)'] + C03.META['functions']
-META['bounds'] = {'quick': 'object domain 2^s, s <= 3; every reachable-state class (r NULL, or cached for N\' in {1..2^s}) x every method x every size <= 2^s, ncols 1..2, nphase/nblock symbolic (all uint64); induction over the history length, no sequence is enumerated beyond the state-establishing call',
+META['bounds'] = {'quick': 'object domain 2^s, s <= 3; every object state in the closure of {NTT, INTT, extendPol(N\')} histories (depth <= 3) x every method x every size <= 2^s, ncols 1..2, nphase/nblock symbolic (all uint64); induction over the history length, no sequence is enumerated beyond the state-establishing call',
                   'thorough': 's <= 5, ncols 1..3'}
 META['assumptions'] = C03.META['assumptions'] + ['state classes are established by one earlier call (extendPol of each size; NTT/INTT to exercise the frame assertion); the frame assertion (roots, powTwoInv, s, nThreads, extension unchanged) is checked after every call']
+def hname(h):
+    return 'fresh' if not h else '+'.join('%s%s' % (k, ('N%d' % (1 << a_)) if k == 'ext' else ('n%d' % (1 << d))) for (k, d, a_, nc) in h)
 def obligations(ctx):
     S = 5 if ctx.thorough else 3; C = 3 if ctx.thorough else 2; obs = []
     for s_ in range(0, S + 1):
-        pres = [('ext', min(a + 1, S + 1), a, 1) for a in range(0, s_ + 1)] + [('ntt', s_, None, 1), ('intt', max(s_ - 1, 0), None, 2)]
-        for pre in pres:
+        calls = [('ext', min(a + 1, S + 1), a, 1) for a in range(0, s_ + 1)] + [('ntt', s_, None, 1), ('intt', max(s_ - 1, 0), None, 2)]
+        states = ntt.discover_states(ctx, s_, calls, max_depth=3, max_states=16 if not ctx.thorough else 24)
+        for (h, _) in states:
+            if not h: continue       # the fresh object is C03-C05
             for ncols in range(1, C + 1):
                 for d in range(0, s_ + 1):
                     for kind in ('ntt', 'intt'):
-                        obs.append(Ob('after-%s%s/%s/s%d/d%d/c%d' % (pre[0], ('N%d' % (1 << pre[2])) if pre[0] == 'ext' else '', kind, s_, d, ncols), ntt.ob, ('C19', kind, s_, d, ncols, 'other', False), dict(pre=pre), weight=(1 << d)))
+                        obs.append(Ob('s%d/after-%s/%s/d%d/c%d' % (s_, hname(h), kind, d, ncols), ntt.ob, ('C19', kind, s_, d, ncols, 'other', False), dict(pre=list(h)), weight=(1 << d)))
                 for a in range(0, s_ + 1):
                     for b in (a, a + 1):
-                        obs.append(Ob('after-%s%s/ext/s%d/N%d/Next%d/c%d' % (pre[0], ('N%d' % (1 << pre[2])) if pre[0] == 'ext' else '', s_, 1 << a, 1 << b, ncols), ntt.ob, ('C19', 'ext', s_, b, ncols, 'other', False), dict(a=a, pre=pre), weight=(1 << b)))
+                        obs.append(Ob('s%d/after-%s/ext/N%d/Next%d/c%d' % (s_, hname(h), 1 << a, 1 << b, ncols), ntt.ob, ('C19', 'ext', s_, b, ncols, 'other', False), dict(a=a, pre=list(h)), weight=(1 << b)))
     return obs + C03.contract_obs(ctx)
 def validate(ctx): return ntt.validate(ctx)
 def replay(ctx, d): return ntt.replay(ctx, d)
